@@ -34,6 +34,9 @@ type half struct {
 	breakErr error
 	onBreak  func()
 	total  int64 // bytes ever written
+	// stalled: writers block (a full socket buffer whose reader has stopped
+	// reading) until the stall is lifted, the half breaks or the writer closes
+	stalled bool
 }
 
 func newHalf() *half {
@@ -127,6 +130,18 @@ func (c *Conn) Write(p []byte) (int, error) {
 		c.OnWrite(p)
 	}
 	h.mu.Lock()
+	for h.stalled && h.broken == nil && !h.closed {
+		h.cond.Wait()
+	}
+	if h.closed {
+		h.mu.Unlock()
+		return 0, io.ErrClosedPipe
+	}
+	if h.broken != nil {
+		err := h.broken
+		h.mu.Unlock()
+		return 0, err
+	}
 	if h.breakAt > 0 && h.total+int64(len(p)) >= h.breakAt {
 		n := int(h.breakAt - 1 - h.total)
 		if n < 0 {
@@ -172,6 +187,7 @@ func (c *Conn) Close() error {
 	c.wr.cond.Broadcast()
 	c.wr.mu.Unlock()
 	c.rd.mu.Lock()
+	c.rd.stalled = false // nobody is left to not read
 	c.rd.cond.Broadcast()
 	c.rd.mu.Unlock()
 	return nil
@@ -202,6 +218,17 @@ func (c *Conn) Reset(err error) {
 func (c *Conn) BreakPeerWrites(err error) {
 	c.rd.mu.Lock()
 	c.rd.broken = err
+	c.rd.cond.Broadcast()
+	c.rd.mu.Unlock()
+}
+
+// StallPeerWrites(true) makes the *peer's* writes block, as they do once this
+// endpoint has stopped reading and the buffers in between are full;
+// StallPeerWrites(false), BreakPeerWrites or the peer closing release them.
+func (c *Conn) StallPeerWrites(on bool) {
+	c.rd.mu.Lock()
+	c.rd.stalled = on
+	c.rd.cond.Broadcast()
 	c.rd.mu.Unlock()
 }
 
